@@ -16,7 +16,7 @@ RULE = ("conv probe, no scripted backend panics: (a) command lines of length lim
         "length 4 (thorough 5) over {NUL, CR, LF, SP, 'A', ':', 0xFF} as a command line; (c') every string up to length 3 (thorough 4) over {double quote, backslash, '<', '>', '@', 'a', SP, ':', '=', '+', '.'} as the argument of MAIL FROM:, RCPT TO:, AUTH= , ORCPT= and AUTH; (d) seeded random binary segments; (e) mixes of valid "
         "and invalid commands around the error threshold; (f) random walks without panic letters. non-trivial = the conversation "
         "contains an invalid, over-long or binary line; distinct = distinct case line")
-THEOREMS = ["C19_short_lines_ok", "C19_long_line_trips", "C19_long_line_refused"]
+THEOREMS = ["C19_short_lines_ok", "C19_long_line_trips", "C19_long_line_refused", "C19_error_threshold", "C19_tripped_ends_commands"]
 signature = cc.signature
 mutate = cc.mutate
 shrink = P.shrink_resegment
